@@ -57,7 +57,7 @@ pub fn gen(seed: u64, thorough: bool) -> Plan {
         out.append(&mut block);
         p.steps = out;
         p.cfg.pool = *r.pick(&[1usize, 2, 4]);
-        p.cfg.map_size = 64 << 20;
+        p.cfg.map_size = 1usize << 30;
         p.cfg.yield_every = *r.pick(&[1u64, 2, 8]);
         p.params.insert("readers".into(), 1 + r.below(3));
         p.params.insert("rounds".into(), 2 + r.below(4));
